@@ -175,13 +175,43 @@ def run_harness(profile, case_lines, features=None, timeout=1800):
     b = harness_bin(profile)
     if features:
         b = os.path.join(BUILD, 'cargo-' + features, 'release' if profile == 'release' else 'checked', 'flacverif')
-    p = subprocess.run([b, 'run'], input='\n'.join(case_lines) + '\n', capture_output=True, text=True, timeout=timeout)
-    out = p.stdout.split('\n')
-    if out and out[-1] == '':
-        out.pop()
-    if p.returncode != 0 or len(out) != len(case_lines):
-        # the process died (abort, stack overflow, alloc failure): find the culprit by bisection
-        return out, {'rc': p.returncode, 'stderr': p.stderr[-500:], 'n_out': len(out)}
+    # the harness prints one line per case and flushes it: a case that produces no line for STALL seconds is a hang of the implementation
+    # (cases normally take milliseconds; the longest generated ones - 15 M samples, 16 MiB padding - take seconds)
+    import threading, queue
+    STALL = int(os.environ.get('VERIF_STALL', '300'))
+    p = subprocess.Popen([b, 'run'], stdin=subprocess.PIPE, stdout=subprocess.PIPE, stderr=subprocess.PIPE, text=True)
+    def feed():
+        try:
+            p.stdin.write('\n'.join(case_lines) + '\n')
+            p.stdin.close()
+        except (BrokenPipeError, OSError):
+            pass
+    q = queue.Queue()
+    def read_out():
+        for line in p.stdout:
+            q.put(line.rstrip('\n'))
+        q.put(None)
+    errbuf = []
+    def read_err():
+        errbuf.append(p.stderr.read())
+    for fn in (feed, read_out, read_err):
+        threading.Thread(target=fn, daemon=True).start()
+    out = []
+    t_end = time.time() + timeout
+    while True:
+        try:
+            line = q.get(timeout=min(STALL, max(1, t_end - time.time())))
+        except queue.Empty:
+            p.kill()
+            return out, {'rc': 'hang', 'stderr': f'no outcome for {STALL} s: the case after the last outcome did not return', 'n_out': len(out)}
+        if line is None:
+            break
+        out.append(line)
+    rc = p.wait()
+    stderr = (errbuf[0] if errbuf else '') or ''
+    if rc != 0 or len(out) != len(case_lines):
+        # the process died (abort, stack overflow, alloc failure): the case after the last outcome is the culprit
+        return out, {'rc': rc, 'stderr': stderr[-500:], 'n_out': len(out)}
     return out, None
 
 def _run_driver_chunk(args):
